@@ -36,6 +36,7 @@ MUTANTS = [
 
 def run(ctx):
     F = ctx.F
+    _FACTS[0] = F
     ctx.rule("C08.D1", "send-once typestate: set_result / set_resp_result by value in all CmdTask impls; reply channel Option + take(); Drop answers Dropped; not Clone")
     ctx.rule("C08.D2", "FIFO discipline in handle_conn: only FIFO queue operations, one packet per task, popped packet is sent, one task popped per packet read and handled")
     ctx.rule("C08.D3", "failure drains: every error return drains all tasks into handle_conn_err (retry all or answer each); reconnect failure answers carried-over tasks")
@@ -106,10 +107,36 @@ def _poll_closure(F, fn):
     return cands[0] if cands else None
 
 
+_FACTS = [None]
+
+
+def _cap_role(F, b, sl):
+    """role of a captured queue / stream, decided from the captured variable's type (not its name)"""
+    from ..lib import capture_types
+    roles = set()
+    for nm, ty in capture_types(F, b, sl.captures).items():
+        if ty.startswith("std::collections::VecDeque<"):
+            inner = ty[len("std::collections::VecDeque<"):]
+            if "::Pkt" in inner:
+                roles.add("packets")
+            elif "CmdTaskResultHandler>::Task" in inner:
+                roles.add("tasks")
+            elif "CmdReplyReceiver" in inner or "Future" in inner:
+                roles.add("reply_receiver_list")
+            elif "RespPacket" in inner:
+                roles.add("replies")
+        elif "Stream" in ty and "Sink" not in ty.split("Stream")[0][-12:]:
+            roles.add("reader")
+        elif "RetryState" in ty:
+            roles.add("retry_state")
+    return roles
+
+
 def _queue_of(du, b, t):
     sl = du.slice_operand(t["args"][0], deep=False)
+    roles = _cap_role(_FACTS[0], b, sl)
     for nm in ("tasks", "packets"):
-        if nm in sl.captures:
+        if nm in roles:
             return nm
     return None
 
@@ -163,7 +190,7 @@ def _fifo(ctx):
     # each packet read pops one task and hands both to the handler
     tp = ops["tasks"].get("pop_front", [])
     ht = [bb for bb, t in b.calls() if (callee_decl(t) or "").endswith("CmdTaskResultHandler::handle_task")]
-    rn = [bb for bb, t in b.calls() if (callee_decl(t) or "").endswith("Stream::poll_next") and "reader" in DefUse(b).slice_operand(t["args"][0]).captures]
+    rn = [bb for bb, t in b.calls() if (callee_decl(t) or "").endswith("Stream::poll_next") and "reader" in _cap_role(F, b, DefUse(b).slice_operand(t["args"][0]))]
     if ctx.floor("C08.D2", "tasks.pop_front", len(tp), 1) and ctx.floor("C08.D2", "handle_task", len(ht), 1) and ctx.floor("C08.D2", "reader.poll_next", len(rn), 1):
         ctx.check(any(r in dom.get(tp[0], ()) for r in rn), "C08.D2", "pop-per-read", site(b, tp[0]), ok="a task is popped only after a packet was read", bad="tasks are popped without a packet being read")
         tt = b.blocks[tp[0]].term
@@ -200,7 +227,7 @@ def _drains(ctx):
                 ctx.check(any(h in dom.get(bb, ()) for h, _ in hce), "C08.D3", "error-return-drains#%d" % (errs.index((bb, i)) + 1), site(b, bb, i), ok="dominated by handle_conn_err", bad="an error return of the connection loop does not go through handle_conn_err: pending requests stay unanswered")
             for h, t in hce:
                 sl = du.slice_operand(t["args"][1])
-                ctx.check(sl.has_call("VecDeque::drain") and "tasks" in sl.captures, "C08.D3", "drain-all-tasks#%d" % (hce.index((h, t)) + 1), site(b, h), ok="all pending tasks are drained into handle_conn_err", bad="handle_conn_err is not given tasks.drain(..)")
+                ctx.check(sl.has_call("VecDeque::drain") and "tasks" in _cap_role(F, b, sl), "C08.D3", "drain-all-tasks#%d" % (hce.index((h, t)) + 1), site(b, h), ok="all pending tasks are drained into handle_conn_err", bad="handle_conn_err is not given tasks.drain(..)")
     e = F.one("proxy::backend::handle_conn_err")
     if e is None:
         ctx.lost("C08.D3", "handle_conn_err", "not found")
@@ -229,9 +256,9 @@ def _drains(ctx):
     du = DefUse(h)
     marks = []
     for bb, t in h.calls():
-        if (callee_of(t) or "").endswith("::store") and "Atomic" in (callee_of(t) or "") and "conn_failed" in du.slice_operand(t["args"][0]).captures and t["args"][1].get("c", {}).get("int") == 1:
+        if (callee_of(t) or "").endswith("::store") and "Atomic" in (callee_of(t) or "") and "Atomic<bool>" in " ".join(t.get("atys") or [])[:80] and t["args"][1].get("c", {}).get("int") == 1:
             marks.append(bb)
-    takes = [(bb, t) for bb, t in calls_to(h, "Option::take") if any(h.local_name(l) == "retry_state" for l in du.slice_operand(t["args"][0], deep=False).locals)]
+    takes = [(bb, t) for bb, t in calls_to(h, "Option::take") if "RetryState" in ((t.get("atys") or [""])[0])]
     sleeps = [bb for bb, t in calls_to(h, "tokio::time::sleep")]
     if not (ctx.floor("C08.D3", "reconnect failure marker", len(marks), 1) and ctx.floor("C08.D3", "retry_state.take()", len(takes), 2) and ctx.floor("C08.D3", "reconnect back-off", len(sleeps), 1)):
         return
@@ -333,7 +360,8 @@ def _session(ctx):
         if not c.startswith("std::collections::VecDeque::"):
             continue
         sl = du.slice_operand(t["args"][0], deep=False) if t["args"] else None
-        q = next((x for x in ("reply_receiver_list", "replies") if sl is not None and x in sl.captures), None)
+        roles = _cap_role(F, b, sl) if sl is not None else set()
+        q = next((x for x in ("reply_receiver_list", "replies") if x in roles), None)
         if q is None:
             continue
         nq += 1
@@ -343,7 +371,7 @@ def _session(ctx):
     ctx.check(not bad, R, "session-fifo-ops", site(b, bad[0][2]) if bad else site(b), ok="only push_back / pop_front / front on reply_receiver_list and replies", bad="non-FIFO operation %s: replies would be written out of request order" % [(q, o) for q, o, _ in bad])
     # one queued future per handled command
     hc = [(bb, t) for bb, t in b.calls() if (callee_decl(t) or "").endswith("CmdHandler::handle_cmd")]
-    pb = [(bb, t) for bb, t in calls_to(b, "VecDeque::push_back") if "reply_receiver_list" in du.slice_operand(t["args"][0], deep=False).captures]
+    pb = [(bb, t) for bb, t in calls_to(b, "VecDeque::push_back") if "reply_receiver_list" in _cap_role(F, b, du.slice_operand(t["args"][0], deep=False))]
     if ctx.floor(R, "handle_cmd calls in the session", len(hc), 1) and ctx.floor(R, "push_back on reply_receiver_list", len(pb), 1):
         ok = all(du.slice_operand(t["args"][1]).has_call("handle_cmd") for bb, t in pb)
         ctx.check(ok, R, "queued-future-is-the-handlers", site(b, pb[0][0]), ok="the queued future is the one returned by handle_cmd", bad="a future that does not come from handle_cmd is queued")
@@ -354,7 +382,7 @@ def _session(ctx):
             esc = cfg.path_avoiding(b, (bb, len(b.blocks[bb].stmts)), heads | set(b.return_blocks()), {(x, len(b.blocks[x].stmts)) for x in pbb}) if hasattr(cfg, "path_avoiding") else None
             ctx.check(esc is None, R, "every-command-queues-its-future", site(b, bb), ok="handle_cmd is always followed by push_back of its future", bad="a handled command can leave no future in the reply queue: it never gets a reply and later replies shift")
     # popped reply is sent
-    pops = [(bb, t) for bb, t in calls_to(b, "VecDeque::pop_front") if "replies" in du.slice_operand(t["args"][0], deep=False).captures]
+    pops = [(bb, t) for bb, t in calls_to(b, "VecDeque::pop_front") if "replies" in _cap_role(F, b, du.slice_operand(t["args"][0], deep=False))]
     sends = [(bb, t) for bb, t in b.calls() if (callee_decl(t) or callee_of(t) or "").endswith("Sink::start_send")]
     if ctx.floor(R, "replies.pop_front", len(pops), 1) and ctx.floor(R, "start_send", len(sends), 1):
         ctx.check(all(du.slice_operand(t["args"][1]).has_call("pop_front") for bb, t in sends), R, "popped-reply-is-sent", site(b, sends[0][0]), ok="start_send is given the popped reply", bad="start_send is not given the reply popped from the queue")
